@@ -44,7 +44,9 @@ def substitute_fresh(body, names):
     """Replace ["fresh", prefix, rhs] ops by plain assignments to the names the builder returned."""
     out = []
     for op in body:
-        if op[0] == "fresh":
+        if op[0] == "reserve":
+            names.pop(0)            # a name handed out ahead of its use: no statement
+        elif op[0] == "fresh":
             out.append(["assign", names.pop(0), None, op[2], []])
         elif op[0] == "if":
             then = substitute_fresh(op[2], names)
@@ -62,7 +64,9 @@ def names_before(body):
 
     def rec(ops):
         for op in ops:
-            if op[0] == "fresh":
+            if op[0] == "reserve":
+                out.append(("fresh", set(seen)))
+            elif op[0] == "fresh":
                 out.append(("fresh", set(seen)))
                 for t in op_trees(op):
                     seen.update(T.variables(t))
@@ -100,7 +104,8 @@ def check_case(case, cap):
     si = [0]
 
     def count_ops_(ops):
-        return sum(1 + (count_ops_(op[2]) + (count_ops_(op[3]) if op[3] else 0) if op[0] == "if" else 0) for op in ops)
+        return sum((0 if op[0] == "reserve" else 1)
+                   + (count_ops_(op[2]) + (count_ops_(op[3]) if op[3] else 0) if op[0] == "if" else 0) for op in ops)
     if count_ops_(ph["body"]) != len(stmts):
         return "builder produced %d statements for %d operations" % (len(stmts), count_ops_(ph["body"])), info
 
@@ -115,7 +120,7 @@ def check_case(case, cap):
                 walk(op[2])
                 if op[3]:
                     walk(op[3])
-            else:
+            elif op[0] != "reserve":
                 si[0] += 1
     try:
         walk(ph["body"])
